@@ -99,6 +99,8 @@ class History:
         if forms == 1:
             self.params["phase_assemblage"] = list(self.params["phase_assemblage"])
             self.params["phase_fractions"] = list(self.params["phase_fractions"])
+        elif forms == 3 and float(self.params["gbm_mobility"]).is_integer():
+            self.params["gbm_mobility"] = int(self.params["gbm_mobility"])   # int is the documented default type
         elif forms == 2:
             self.params["phase_fractions"] = np.array(self.params["phase_fractions"], dtype=float)
             for key in ("stress_exponent", "deformation_exponent", "nucleation_efficiency", "gbm_mobility", "gbs_threshold"):
@@ -239,7 +241,7 @@ def random_history_case(rng, **fixed):
         "tex": str(rng.choice(gen.TEXTURE_KINDS)),
         "vol": str(rng.choice(gen.VOLUME_KINDS)),
         "L": {"kind": str(rng.choice(gen.L_KINDS)), "seed": int(rng.integers(1 << 31)), "mode": str(mode),
-              "k": 1.0},
+              "k": float(rng.choice([1.0, 1.0, 0.5, 3.0, 1e-3, 1e2, 1e-9]))},
         "strain": float(rng.choice([0.2, 1.0, 2.0])),
         "N": int(rng.choice([1, 3, 10, 40], p=[0.3, 0.4, 0.25, 0.05])),
         "equal": bool(rng.random() < 0.5),
@@ -345,35 +347,40 @@ class Monitors:
             return
         dA, df = res
         rate_manifold_oracle(self.ctx, kw["orientations"], kw["fractions"], dA, df,
-                             float(kw["gbm_mobility"]) * float(kw["volume_fraction"]), self.case, where="in-solver")
+                             float(kw["gbm_mobility"]) * float(kw["volume_fraction"]), self.case, where="in-solver",
+                             Lnorm=float(np.abs(np.asarray(kw["velocity_gradient"])).sum()))
 
 
-def rate_manifold_oracle(ctx, A, f, dA, df, mphi, case, where="direct"):
-    """C03 sub-oracles that need nothing but one call's inputs and outputs."""
+def rate_manifold_oracle(ctx, A, f, dA, df, mphi, case, where="direct", Lnorm=1.0):
+    """C03 sub-oracles that need nothing but one call's inputs and outputs.
+
+    Skewness is decided without inverting A: dA = A.W with W skew  <=>  dA.A^T + A.dA^T = A.(W + W^T).A^T = 0.
+    (Inside the solver LSODA also evaluates the right-hand side at trial states it later rejects, where the
+    merely clipped A can be arbitrarily ill-conditioned; solving for W there amplifies rounding by cond(A).)
+    """
     dA = np.asarray(dA)
     df = np.asarray(df)
+    A = np.asarray(A)
     fin = bool(np.isfinite(dA).all() and np.isfinite(df).all())
     ctx.check(f"rates_finite[{where}]", fin, case, key="rates_finite")
     if not fin:
         return
-    # Omega_g = A_g^-1 dA_g must be skew (exact identity of the published rate, also for the
-    # merely clipped A_g seen inside the solver)
-    try:
-        Om = np.linalg.solve(A, dA)
-    except np.linalg.LinAlgError:
-        ctx.count("singular_orientation_in_solver")
-        return
-    sk = np.abs(Om + np.swapaxes(Om, -1, -2)).max(axis=(1, 2))
-    scale = 1 + np.abs(dA).max(axis=(1, 2))
+    At = np.swapaxes(A, -1, -2)
+    S = dA @ At
+    sk = np.abs(S + np.swapaxes(S, -1, -2)).max(axis=(1, 2)) if len(A) else np.zeros(0)
+    scale = (1 + np.abs(dA).max(axis=(1, 2))) * (1 + np.abs(A).max(axis=(1, 2)) ** 2) if len(A) else np.ones(0)
     worst = float((sk / scale).max()) if len(sk) else 0.0
     ctx.extreme(f"skew_defect[{where}]", worst)
     ctx.check(f"spin_skew[{where}]", worst <= 1e-9, case, key="spin_skew", worst=worst)
     s = float(np.sum(f))
     if abs(s - 1) <= 1e-12:
-        # rounding of sum_i f_i (Ebar - E_i) is proportional to sum_i |df_i|
-        tol = 1e-12 + 1e-11 * float(np.abs(df).sum())
+        n = len(df)
+        # rounding: the computed mean energy carries an error up to ~n*eps*Ebar (sequential sum in the kernel),
+        # which enters sum(df) multiplied by phi*M; the grain terms add eps*sum|df_i|.  Energies are bounded by
+        # a few times max(1, |L|) for the documented exponent ranges.
+        tol = 1e-12 + 1e-11 * float(np.abs(df).sum()) + n * abs(mphi) * max(1.0, float(Lnorm)) * 1e-13
         tot = abs(float(df.sum()))
-        ctx.extreme(f"sum_df[{where}]", tot)
+        ctx.extreme(f"sum_df/tol[{where}]", tot / tol)
         ctx.check(f"volume_rates_sum_zero[{where}]", tot <= tol, case, key="volume_rates_sum_zero",
                   total=tot, tol=tol)
     z = (np.asarray(f) == 0)
